@@ -1,0 +1,9 @@
+//go:build !verif
+
+package lucene
+
+import "github.com/grindlemire/go-lucene/internal/lex"
+
+func vtrace(p *parser, ev string, next lex.Token) {}
+
+func vpopped(p *parser, k int) {}
